@@ -191,7 +191,9 @@ impl DiscriminantType {
                 arms.extend(match base {
                     // the expression is typed as the discriminant type itself, as it is in the enum
                     // definition (`!0 / 2` is 127 for `u8`, but 0 if it is evaluated as `i32` and cast afterwards)
-                    Some(exp) => quote::quote!( Self::#ident { .. } => ({ let discriminant: #self = #exp; discriminant }) + #offset_lit, ),
+                    // the counted offset may not fit the discriminant type on its own (`A = -128` followed by 139 more variants
+                    // of a `#[repr(i8)]` enum), but the discriminant does, so the sum is exact in wrapping arithmetic
+                    Some(exp) => quote::quote!( Self::#ident { .. } => ({ let discriminant: #self = #exp; discriminant }).wrapping_add(#offset_lit as #self), ),
                     None => quote::quote!( Self::#ident { .. } => #offset_lit as #self, ),
                 });
 
